@@ -193,6 +193,7 @@ def run(prop, tier):
     t0 = time.time()
     b = core.fresh_dir(os.path.join(core.ROOT, 'build', 'C18'))
     kmax = 2 if tier == 'quick' else 3
+    planted = e4.selftest(b)
     res = core.Result()
     table = []      # replay table
     nseq = 0
@@ -303,7 +304,7 @@ def run(prop, tier):
                 assumptions=['leak detection off (queued samples awaiting presentation are not leaks)', 'a periodic timer fires at most twice between two datagrams (horizon)',
                              'FD mode of the CAN listener is entered by setting its mode variable',
                              'the deviation ball around well-formed traffic, not all 2^12000 datagrams'],
-                recipe={'engine': 'c18'}, samples=samples)
+                recipe={'engine': 'c18'}, samples=samples, extra_cov={'planted_bug_selftest': 'toy listener trusting a length byte: reported as ' + planted})
 
 
 def replay(prop, case):
